@@ -2,7 +2,7 @@
     memtable flow. *)
 From Coq Require Import ZArith NArith List Bool Lia.
 From Coq Require Import ZifyBool ZifyNat ZifyN.
-From Snel Require Import Base.Bytes Model.Float64 Model.RustText Model.JsonV7 Model.ValueTiers.
+From Snel Require Import Base.Bytes Model.Float64 Model.RustText Model.JsonV7 Model.ValueTiers Gen.Params.
 From Snel Require Import Proofs.ValueTextProofs.
 Import ListNotations.
 
@@ -235,21 +235,65 @@ Definition f_b : bytes := [98]%N.
 Definition ev_ab (name : bytes) : Z :=
   if bytes_eqb name f_a then 1%Z else if bytes_eqb name f_b then 2%Z else 0%Z.
 
-Theorem return_mislabel_refuted :
-  exists o1 o2 : list bytes,
-    (* both are arrangements of the requested set {a, b} *)
-    (forall x, In x o1 <-> In x o2) /\ NoDup o1 /\ NoDup o2 /\
-    return_mislabel_possible {| via_wal := false; in_seg := None |} [] [f_a; f_b] [f_a; f_b] = true /\
-    In (f_a, 2%Z)
-       (flow_row 0%Z (selection_columns [] o1) (selection_columns [] o2) (Some [f_a; f_b]) [f_a; f_b] ev_ab).
+(** RETIRED by fix f2ae870: [return_mislabel_refuted] (with two HashSet orders the memtable flow put b's
+    value under a's name).  The requested names are now appended in RETURN order, so the two column lists
+    of the memtable flow coincide whatever orders the former HashSets would have had. *)
+Lemma return_order_param : value_return_order_stable = true.
+Proof. reflexivity. Qed.
+
+Theorem memtable_flow_order_independent : forall (A : Type) (d : A) fc ret fields o1 o2 (ev : bytes -> A),
+  memtable_flow_row d fc ret fields o1 o2 ev =
+  let cols := selection_columns fc (requested ret fields) in flow_row d cols cols (Some ret) fields ev.
 Proof.
-  exists [f_a; f_b], [f_b; f_a]. repeat split.
-  - intros [H|[H|[]]]; subst; cbn; auto.
-  - intros [H|[H|[]]]; subst; cbn; auto.
-  - apply NoDup_cons; [cbn; intros [H|[]]; discriminate|apply NoDup_cons; [intros []|apply NoDup_nil]].
-  - apply NoDup_cons; [cbn; intros [H|[]]; discriminate|apply NoDup_cons; [intros []|apply NoDup_nil]].
-  - vm_compute. right. right. right. right. left. reflexivity.
+  intros. unfold memtable_flow_row, selection_columns_ret, appended_order. rewrite return_order_param. reflexivity.
 Qed.
+
+(** the memtable flow under any RETURN list is exact: every cell holds the value of the column it is
+    named after, only core columns and requested schema fields appear, core columns are kept *)
+Theorem memtable_flow_exact : forall (A : Type) (d : A) fc ret fields o1 o2 (ev : bytes -> A),
+  (forall name val, In (name, val) (memtable_flow_row d fc ret fields o1 o2 ev) -> val = ev name) /\
+  (forall name val, ret <> [] -> In (name, val) (memtable_flow_row d fc ret fields o1 o2 ev) ->
+     is_core name = true \/ (In name ret /\ mem_bytes name fields = true)) /\
+  (forall c, In c core_fields -> In (c, ev c) (memtable_flow_row d fc ret fields o1 o2 ev)) /\
+  (forall f, In f ret -> mem_bytes f fields = true -> In (f, ev f) (memtable_flow_row d fc ret fields o1 o2 ev)).
+Proof.
+  intros A d fc ret fields o1 o2 ev. rewrite memtable_flow_order_independent. cbv zeta.
+  set (cols := selection_columns fc (requested ret fields)).
+  destruct (projection_exact A d cols (Some ret) fields ev) as (P1 & P2 & P3 & P4 & _).
+  assert (Hcore : forall c, In c core_fields -> In c cols).
+  { intros c Hc. unfold cols, selection_columns, dedup.
+    assert (G : forall l seen x, In x l -> mem_bytes x seen = false -> In x (dedup_acc seen l)).
+    { induction l as [|y l IH]; intros seen x Hin Hs; [destruct Hin|]. cbn [dedup_acc].
+      destruct (bytes_eqb x y) eqn:E.
+      - apply bytes_eqb_eq in E. subst y. rewrite Hs. left. reflexivity.
+      - destruct Hin as [->|Hin]; [rewrite bytes_eqb_refl in E; discriminate|].
+        destruct (mem_bytes y seen); [apply IH; assumption|].
+        right. apply IH; [exact Hin|]. cbn [mem_bytes]. rewrite E, Hs. reflexivity. }
+    apply G; [apply in_or_app; left; exact Hc|reflexivity]. }
+  assert (Hreq : forall f, In f ret -> mem_bytes f fields = true -> In f cols).
+  { intros f Hf Hm. unfold cols, selection_columns, dedup.
+    assert (G : forall l seen x, In x l -> mem_bytes x seen = false -> In x (dedup_acc seen l)).
+    { induction l as [|y l IH]; intros seen x Hin Hs; [destruct Hin|]. cbn [dedup_acc].
+      destruct (bytes_eqb x y) eqn:E.
+      - apply bytes_eqb_eq in E. subst y. rewrite Hs. left. reflexivity.
+      - destruct Hin as [->|Hin]; [rewrite bytes_eqb_refl in E; discriminate|].
+        destruct (mem_bytes y seen); [apply IH; assumption|].
+        right. apply IH; [exact Hin|]. cbn [mem_bytes]. rewrite E, Hs. reflexivity. }
+    apply G; [|reflexivity]. apply in_or_app. right. apply in_or_app. right. apply in_or_app. left.
+    unfold requested. apply filter_In. split; [exact Hf|]. rewrite Hm. apply orb_true_r. }
+  repeat split.
+  - intros name val H. apply (P1 name val H).
+  - intros name val Hne H. apply (P2 ret name val eq_refl Hne H).
+  - intros c Hc. apply P3; [exact Hc|apply Hcore, Hc].
+  - intros f Hf Hm. apply (P4 ret f eq_refl Hf Hm). apply Hreq; assumption.
+Qed.
+
+(** the former witness: the two orders that used to swap a and b *)
+Example memtable_flow_former_witness :
+  memtable_flow_row 0%Z [] [f_a; f_b] [f_a; f_b] [f_a; f_b] [f_b; f_a] ev_ab
+  = [(nth 0 core_fields [], 0%Z); (nth 1 core_fields [], 0%Z); (nth 2 core_fields [], 0%Z); (nth 3 core_fields [], 0%Z);
+     (f_a, 1%Z); (f_b, 2%Z)].
+Proof. vm_compute. reflexivity. Qed.
 
 Example projection_example :
   flow_row 0%Z (selection_columns [] [f_b; f_a]) (selection_columns [] [f_b; f_a]) (Some [f_a; f_b]) [f_a; f_b] ev_ab
@@ -338,19 +382,3 @@ Proof.
   - rewrite (filter_ext P (fun f => negb (is_core f) && negb (mem_bytes f fc)) HP). exact Hlen.
 Qed.
 
-(** with the same column list on both sides the memtable flow is exact, hence: *)
-Corollary memtable_flow_exact_outside_known : forall (A : Type) (d : A) fc o1 o2 ret fields (ev : bytes -> A) name val,
-  NoDup o1 -> NoDup o2 -> (forall x, In x o1 <-> In x o2) ->
-  (length (filter (fun f => negb (is_core f) && negb (mem_bytes f fc)) o1) <= 1)%nat ->
-  In (name, val) (flow_row d (selection_columns fc o1) (selection_columns fc o2) ret fields ev) ->
-  val = ev name.
-Proof.
-  intros A d fc o1 o2 ret fields ev name val N1 N2 Hs Hl Hin.
-  rewrite <- (selection_columns_stable fc o1 o2 N1 N2 Hs Hl) in Hin.
-  apply (proj1 (projection_exact A d _ ret fields ev) name val Hin).
-Qed.
-
-Example memtable_flow_exact_example :
-  (length (filter (fun f => negb (is_core f) && negb (mem_bytes f [f_a])) [f_b; f_a]) <= 1)%nat /\
-  selection_columns [f_a] [f_b; f_a] = selection_columns [f_a] [f_a; f_b].
-Proof. split; vm_compute; [lia|reflexivity]. Qed.
